@@ -82,7 +82,11 @@ def run(ctx: Ctx):
     for alg in ("cube4D", "randomQ"):
         Ns = list(range(1, b4 + 1))
         if thorough:
-            Ns = list(range(1, 81)) + ([150, 272] if alg == "cube4D" else [150])
+            Ns = list(range(1, 81)) + ([150, 272] if alg == "cube4D" else list(range(81, 273)))
+        elif alg == "randomQ":
+            Ns += [64, 100, 150]          # samples towards the exploration bound of the statement (every N to 272 in the thorough tier)
+        else:
+            Ns += [64]
         plan += [(alg, N) for N in Ns]
     plan += [("fulldiv", 8), ("fulldiv", 40), ("zero3D", 1), ("zero4D", 1), ("fulldiv", 9)]
     for alg in ("ico", "cube3D", "randomS", "cube4D", "randomQ", "fulldiv", "zero3D", "zero4D"):
